@@ -8,9 +8,10 @@ SPEC = {
         "AddFloat / GetFloat / SetBufFloat / GetBufFloat of N2kMsg.cpp by hand (little-endian host, 8-byte double)",
         "MODELLED, NOT VERIFIED: the IEEE-754 computation vd = round(v/precision) (and v/precision for the 8-byte field). "
         "Theorems C06_quantise* are about its exact rational counterpart (core Lean Rat); the harness' front-end stream "
-        "compares the real double arithmetic with exact 128-bit rational rounding for every resolution literal of the "
-        "library and tolerates one unit only where the exact quotient is within 2^-40 (relative) of a rounding boundary "
-        "(counted as qz_near_boundary_tolerated)",
+        "judges the bytes the real code stored against the exact quotient (128-bit rationals in the harness, acceptsQ over Rat "
+        "in the model, C06_front_accepted) with the tolerance the property states (half a step; one step for the 8-byte field; "
+        "plus min(2^-40*|q|, 1) for the IEEE quotient) for every resolution literal of the library; bytes are compared with the "
+        "model's rounding only where the property determines the code",
         "the final multiplication vl*precision of the getters is observed at precision 1.0 only (int->double conversion "
         "modelled by dblOfInt for the 8-byte field) and, with real resolutions, checked by the harness oracle with a "
         "2^-30 relative slack",
